@@ -5,6 +5,7 @@ import (
 	"fmt"
 	"os"
 	"path/filepath"
+	"regexp"
 	"sort"
 	"strings"
 	"sync"
@@ -50,6 +51,9 @@ func procTrouble(rr *RunResult) (issue *Issue, harnessErr error) {
 	}
 	se := rr.ProcStderr
 	switch {
+	case qbeAssertRe.MatchString(se):
+		m := qbeAssertRe.FindStringSubmatch(se)
+		return &Issue{Class: "crash:qbe-assert:" + m[1] + ":" + m[2], Detail: "the embedded QBE aborted the compiler: " + strings.TrimSpace(m[0])}, nil
 	case strings.Contains(se, "fatal error: stack overflow") || strings.Contains(se, "goroutine stack exceeds"):
 		return &Issue{Class: "crash:stack-overflow@" + topRepoFrame(se), Detail: "unbounded recursion: " + firstLines(se, 3)}, nil
 	case strings.Contains(se, "fatal error: concurrent map"):
@@ -61,6 +65,8 @@ func procTrouble(rr *RunResult) (issue *Issue, harnessErr error) {
 	}
 	return nil, fmt.Errorf("simulated compiler ended without a report: exit=%d signal=%q stderr=%s", rr.ProcExit, rr.ProcSignal, firstLines(se, 12))
 }
+
+var qbeAssertRe = regexp.MustCompile(`([a-z0-9_]+\.c):[0-9]+: (\w+): Assertion [^\n]*failed`)
 
 func firstLines(s string, n int) string {
 	ls := strings.Split(strings.TrimSpace(s), "\n")
